@@ -28,7 +28,7 @@ REG.lemmas.append(('C14-p-precedes-t-iff-t-succeeds-p', ['C14'], _lemma_pred_suc
 
 # ================================================================================================ BatchPlanning.generate_plan (C14)
 from pyvc.state import ObjV   # noqa: E402
-from .deps import NODE, NODEATTR, EDGEATTR, NUMNODES, INDEG   # noqa: E402
+from .deps import NODE, NODEATTR, EDGEATTR, NUMNODES, INDEG, AT   # noqa: E402
 from .world import world_of   # noqa: E402
 
 REG.ctor_params['BatchPlanning'] = {'algorithm': 'str', 'delay_model': 'DelayModel'}
@@ -105,6 +105,8 @@ def _gp_inv(c):
     clock = n.clock.t
     alloc = c.eng.alloc()
     alloc_pre = c.x['pre']._s.ghost.get('alloc', c.eng.alloc0())
+    c.eng.seq_facts(T.val)
+    c.eng.seq_facts(c.x['iter'])
     return [('existing-tasks-keep-their-status', Q([('x', I)], lambda x: z3.Implies(z3.Select(alloc_pre, x), z3.Select(
         n.heap('Task', 'task_status'), x) == z3.Select(c.x['pre'].heap('Task', 'task_status'), x)))),
             ('new-tasks-are-new', Q([('t', I)], lambda t: z3.Implies(T.count(t) > 0, z3.Not(z3.Select(alloc_pre, t))))),
@@ -117,7 +119,10 @@ def _gp_inv(c):
                 _task_matches_node(c, n, g, n.observation, clock, z3.Select(M.vals, x)))))),
             ('C14-every-listed-task-is-the-image-of-its-node', Q([('t', I)], lambda t: z3.Implies(T.count(t) > 0, z3.And(
                 T.count(t) == 1, z3.Select(M.keys, z3.Select(n.heap('Task', 'graph_id'), t)),
-                z3.Select(M.vals, z3.Select(n.heap('Task', 'graph_id'), t)) == t))))]
+                z3.Select(M.vals, z3.Select(n.heap('Task', 'graph_id'), t)) == t)))),
+            ('C14-tasks-are-listed-in-the-order-of-the-topological-sort', Q([('j', I)], lambda j: z3.Implies(
+                z3.And(0 <= j, j < vis.n), z3.And(z3.Select(vis.cnt, AT(c.x['iter'].seq, j)) > 0,
+                                                  z3.Select(n.heap('Task', 'graph_id'), AT(T.val.seq, j)) == AT(c.x['iter'].seq, j)))))]
 
 
 def _edge_inv(c):
@@ -139,7 +144,11 @@ def _gp_ens(c):
     H = lambda f, t: z3.Select(n.heap('Task', f), t)
     g = GRAPH_OF(o.observation.workflow.t)
     tw = z3.Int('tw')
-    return [('C14-exactly-as-many-tasks-as-nodes', T.n == NUMNODES(g)),
+    seqT = T.val.seq
+    c.eng.seq_facts(T.val)
+    return [('C14-tasks-listed-in-a-topological-order', Q([('i', I), ('j', I)], lambda i, j: z3.Implies(
+        z3.And(0 <= i, i < j, j < T.n), z3.Not(EDGE(g, H('graph_id', AT(seqT, j)), H('graph_id', AT(seqT, i))))))),
+            ('C14-exactly-as-many-tasks-as-nodes', T.n == NUMNODES(g)),
             ('C14-every-task-is-a-faithful-copy-of-its-node', Q([('t', I)], lambda t: z3.Implies(
                 T.count(t) > 0, _task_matches_node(c, n, g, o.observation, o.clock.t, t)))),
             ('C14-every-node-has-a-task', Q([('x', I)], lambda x: z3.Implies(NODE(g, x), z3.Exists(
@@ -166,6 +175,7 @@ REG.contract('BatchPlanning.generate_plan', world=plan_world,
 REG.loop('BatchPlanning.generate_plan', 0, inv=_gp_inv,
          modifies_locals=['task', 'tid', 'dm', 'pred', 'predecessors', 'succ', 'successors', 'edge_costs', 'data', 'element', 'nm', 'val',
                           'est', 'eft', 'machine_id', 'task_compute', 'task_data', 'taskobj'],
+         ordered=True, positions=['tasks'],
          modifies=['tasks', 'mapping', 'ghost:alloc'] + ['heap:Task.' + f for f in ('id', 'est', 'eft', 'ast', 'aft', 'allocated_machine_id',
                    'duration', 'est_duration', 'delay_flag', 'task_status', 'pred', 'delay', 'delay_offset', 'workflow_offset', 'graph_id',
                    'flops', 'task_data', 'io')],
